@@ -99,6 +99,13 @@ var specs = map[string]propSpec{
 		},
 		Assumptions: append([]string{"schedules are sampled, not enumerated: the harness owns overlap (start barrier, repetitions) and the Go race detector flags unsynchronised access pairs on the schedules that occurred; a race needing a window the stress did not hit can be missed", "expected values are the engine's own sequential results on a freshly compiled expression"}, commonAssumptions...),
 	},
+	"C06": {
+		Units: []unitSpec{
+			{Name: "rapid-mutated-inputs", Test: "TestC06Rapid", Rapid: true, QuickChecks: 100000, ThoroughChecks: 1000000, QuickShards: 4, ThoroughShards: 12},
+			{Name: "enum-deep-nesting", Test: "TestC06Deep", QuickShards: 2, ThoroughShards: 4, ThoroughTimeoutS: 3000},
+		},
+		Assumptions: []string{"termination is decided within an explicit wall-clock margin (20 s for inputs <= 64 KB whose typical cost is < 10 ms, re-tried once alone); an algorithm that is merely slow on inputs larger than the generated ones is out of reach", "the quick tier runs the depth cases under debug.SetMaxStack(8 MB): a legitimate process configuration under which unbounded recursion shows at depth 10^5 instead of 3*10^6"},
+	},
 	"C07": {
 		Units: []unitSpec{
 			{Name: "rapid-comparisons", Test: "TestC07Rapid", Rapid: true, QuickChecks: 60000, ThoroughChecks: 700000, QuickShards: 4, ThoroughShards: 16},
